@@ -47,9 +47,9 @@ KeysCases == {C("keys", IF (Len(u2.port) + u2.up) % 2 = 0 THEN "wrap" ELSE "plai
 
 \* ---- the per-key limit: a second request while the first holds the only connection of its key
 Limits == {C("limits", mode, 1, w, 60000, 0, 0, 0, 0,
-             <<Call(1, u1, "hold"), AtPeer(1), Call(2, u2, "ka"), Sleep(IF w = 0 THEN 1 ELSE 60), Release(1), Wait(0),
+             <<Call(1, u1, h1), AtPeer(1), Call(2, u2, "ka"), Sleep(IF w = 0 THEN 1 ELSE 60), Release(1), Wait(0),
                Call(3, u2, "ka"), Wait(0)>>)
-           : mode \in Modes, w \in {0, 1500},
+           : mode \in Modes, w \in {0, 1500}, h1 \in {"hold", "holdclose"},
              u1 \in {Ha, Sa}, u2 \in {Ha, Hb, Sa, U("http", "a", "80", 0, "url"), U("http", "a", "", 1, "hosthdr")}}
 
 \* ---- clause 5: CloseIdleConnections over both maps; a connection in use is left alone
